@@ -180,9 +180,9 @@ func geo(t *rapid.T, base, max int) uint8 {
 type OpWeights map[string]int
 
 var DefaultWeights = OpWeights{
-	OpInsert: 10, OpInsertNew: 10, OpUpdate: 3, OpInsertSame: 2, OpDelete: 10,
-	OpDelWrong: 1, OpDelAbsent: 1, OpGet: 3, OpSize: 1, OpIter: 1, OpIterStop: 1,
-	OpClone: 2, OpPersist: 3, OpReload: 2, OpReloadJSON: 1, OpDrain: 1,
+	OpInsert: 30, OpInsertNew: 30, OpUpdate: 9, OpInsertSame: 4, OpDelete: 30,
+	OpDelWrong: 3, OpDelAbsent: 3, OpGet: 8, OpSize: 2, OpIter: 3, OpIterStop: 2,
+	OpClone: 6, OpPersist: 12, OpReload: 9, OpReloadJSON: 4, OpDrain: 1,
 }
 
 func weightedKinds(w OpWeights) []string {
@@ -224,7 +224,8 @@ func GenProgram(t *rapid.T, w OpWeights, maxOps, nslots int) []Op {
 		}
 		return op
 	})
-	return rapid.SliceOfN(opGen, 1, maxOps).Draw(t, "program")
+	n := rapid.IntRange(1, maxOps).Draw(t, "nops")
+	return rapid.SliceOfN(opGen, n, n).Draw(t, "program")
 }
 
 // FillOps returns inserts of n distinct pool keys chosen by the generator, as
